@@ -1,2 +1,619 @@
+(* C44 — lemmas about the swap-path model *)
 From GV Require Import lib.Base C44.Model.
 Open Scope Z_scope.
+
+Ltac inv H := inversion H; subst; clear H.
+
+(* ------------------------------------------------------------------ nodup_b *)
+Lemma existsb_eqb_In x l : existsb (Z.eqb x) l = true <-> In x l.
+Proof.
+  rewrite existsb_exists. split.
+  - intros (y & Hy & E). apply Z.eqb_eq in E. subst. auto.
+  - intro H. exists x. split; auto. apply Z.eqb_refl.
+Qed.
+
+Lemma nodup_b_NoDup l : nodup_b l = true <-> NoDup l.
+Proof.
+  induction l; cbn.
+  - split; auto. constructor.
+  - rewrite Bool.andb_true_iff, Bool.negb_true_iff, IHl. split.
+    + intros [H1 H2]. constructor; auto. intro Hin. apply existsb_eqb_In in Hin. congruence.
+    + intro H. inv H. split; auto. destruct (existsb (Z.eqb a) l) eqn:E; auto.
+      apply existsb_eqb_In in E. contradiction.
+Qed.
+
+(* ------------------------------------------------------------------ balances *)
+Definition bal_of (m : mk) (tok : Z) : Z :=
+  if tok =? mk_long m then mk_bl m else if tok =? mk_short m then mk_bs m else 0.
+Fixpoint total (ms : list mk) (tok : Z) : Z :=
+  match ms with [] => 0 | m :: r => bal_of m tok + total r tok end.
+Definition same_tokens (m m' : mk) : Prop :=
+  mk_id m' = mk_id m /\ mk_long m' = mk_long m /\ mk_short m' = mk_short m.
+
+Lemma rec_in_spec m tok amt m' :
+  rec_in m tok amt = Ok m' ->
+  same_tokens m m' /\ (tok = mk_long m \/ tok = mk_short m) /\
+  forall T, bal_of m' T = bal_of m T + (if T =? tok then amt else 0).
+Proof.
+  unfold rec_in, side, is_pure. intro H.
+  destruct (tok =? mk_long m) eqn:El.
+  - apply Z.eqb_eq in El. rewrite Bool.orb_true_r in H.
+    destruct (U64_MAX <? mk_bl m + amt); [discriminate|]. inv H.
+    split; [unfold same_tokens; cbn; auto|]. split; auto.
+    intro T. unfold bal_of. cbn. destruct (T =? mk_long m) eqn:E; [lia|].
+    destruct (T =? mk_short m); lia.
+  - destruct (tok =? mk_short m) eqn:Es; [|discriminate]. apply Z.eqb_eq in Es.
+    rewrite Bool.orb_false_r in H.
+    destruct (mk_long m =? mk_short m) eqn:Ep.
+    { apply Z.eqb_eq in Ep. apply Z.eqb_neq in El. congruence. }
+    destruct (U64_MAX <? mk_bs m + amt); [discriminate|]. inv H.
+    split; [unfold same_tokens; cbn; auto|]. split; auto.
+    intro T. unfold bal_of. cbn. apply Z.eqb_neq in El, Ep.
+    destruct (T =? mk_long m) eqn:E1.
+    + apply Z.eqb_eq in E1. destruct (T =? mk_short m) eqn:E2; [apply Z.eqb_eq in E2; congruence|lia].
+    + destruct (T =? mk_short m); lia.
+Qed.
+
+Lemma rec_out_spec m tok amt m' :
+  rec_out m tok amt = Ok m' ->
+  same_tokens m m' /\ (tok = mk_long m \/ tok = mk_short m) /\
+  forall T, bal_of m' T = bal_of m T - (if T =? tok then amt else 0).
+Proof.
+  unfold rec_out, side, is_pure. intro H.
+  destruct (tok =? mk_long m) eqn:El.
+  - apply Z.eqb_eq in El. rewrite Bool.orb_true_r in H.
+    destruct (mk_bl m - amt <? 0); [discriminate|]. inv H.
+    split; [unfold same_tokens; cbn; auto|]. split; auto.
+    intro T. unfold bal_of. cbn. destruct (T =? mk_long m) eqn:E; [lia|].
+    destruct (T =? mk_short m); lia.
+  - destruct (tok =? mk_short m) eqn:Es; [|discriminate]. apply Z.eqb_eq in Es.
+    rewrite Bool.orb_false_r in H.
+    destruct (mk_long m =? mk_short m) eqn:Ep.
+    { apply Z.eqb_eq in Ep. apply Z.eqb_neq in El. congruence. }
+    destruct (mk_bs m - amt <? 0); [discriminate|]. inv H.
+    split; [unfold same_tokens; cbn; auto|]. split; auto.
+    intro T. unfold bal_of. cbn. apply Z.eqb_neq in El, Ep.
+    destruct (T =? mk_long m) eqn:E1.
+    + apply Z.eqb_eq in E1. destruct (T =? mk_short m) eqn:E2; [apply Z.eqb_eq in E2; congruence|lia].
+    + destruct (T =? mk_short m); lia.
+Qed.
+
+(* find / upd *)
+Lemma find_id ms id m : find ms id = Some m -> mk_id m = id.
+Proof.
+  induction ms; cbn; [discriminate|]. destruct (mk_id a =? id) eqn:E; auto.
+  intro H. inv H. apply Z.eqb_eq. auto.
+Qed.
+
+Lemma total_upd ms m m' T :
+  find ms (mk_id m') = Some m -> total (upd ms m') T = total ms T - bal_of m T + bal_of m' T.
+Proof.
+  induction ms; cbn; [discriminate|].
+  destruct (mk_id a =? mk_id m') eqn:E.
+  - intro H. inv H. cbn. lia.
+  - intro H. cbn. rewrite (IHms H). lia.
+Qed.
+
+Lemma find_upd_same ms m m' : find ms (mk_id m') = Some m -> find (upd ms m') (mk_id m') = Some m'.
+Proof.
+  induction ms; cbn; [discriminate|]. destruct (mk_id a =? mk_id m') eqn:E.
+  - intros _. cbn. rewrite Z.eqb_refl. auto.
+  - intro H. cbn. rewrite E. auto.
+Qed.
+
+Lemma find_upd_other ms m' id : id <> mk_id m' -> find (upd ms m') id = find ms id.
+Proof.
+  intro Hne. induction ms; cbn; auto. destruct (mk_id a =? mk_id m') eqn:E.
+  - cbn. apply Z.eqb_eq in E. destruct (mk_id m' =? id) eqn:E1; [apply Z.eqb_eq in E1; congruence|].
+    destruct (mk_id a =? id) eqn:E2; [apply Z.eqb_eq in E2; congruence|]. auto.
+  - cbn. destruct (mk_id a =? id); auto.
+Qed.
+
+(* market tokens never change: [toks ms id] is the (long, short) of market id *)
+Definition toks_of (ms : list mk) (id : Z) : option (Z * Z) :=
+  match find ms id with Some m => Some (mk_long m, mk_short m) | None => None end.
+
+Lemma toks_upd ms m m' id :
+  find ms (mk_id m') = Some m -> mk_long m' = mk_long m -> mk_short m' = mk_short m ->
+  toks_of (upd ms m') id = toks_of ms id.
+Proof.
+  intros Hf Hl Hs. unfold toks_of. destruct (Z.eq_dec id (mk_id m')) as [->|Hne].
+  - rewrite (find_upd_same _ _ _ Hf), Hf. congruence.
+  - rewrite (find_upd_other _ _ _ Hne). auto.
+Qed.
+
+(* ------------------------------------------------------------------ hops follow a path *)
+(* [follows lk path tok amt hops tok' amt']: the hops are exactly one hop per market of the path, in order;
+   each hop enters with the running token / amount, the market has two distinct tokens one of which is the
+   running token, and the hop leaves with the other token and the hop's output amount *)
+Inductive follows (lk : Z -> option (Z * Z)) : list Z -> Z -> Z -> list hop -> Z -> Z -> Prop :=
+| F_nil tok amt : follows lk [] tok amt [] tok amt
+| F_cons mt rest tok amt h hs tl ts tok' amt' :
+    lk mt = Some (tl, ts) -> tl <> ts ->
+    hp_market h = mt -> hp_in h = amt ->
+    (hp_in_long h = true /\ tok = tl \/ hp_in_long h = false /\ tok = ts) ->
+    follows lk rest (if hp_in_long h then ts else tl) (hp_out h) hs tok' amt' ->
+    follows lk (mt :: rest) tok amt (h :: hs) tok' amt'.
+
+Lemma follows_app lk p1 : forall p2 tok amt h1 h2 t1 a1 t2 a2,
+  follows lk p1 tok amt h1 t1 a1 -> follows lk p2 t1 a1 h2 t2 a2 ->
+  follows lk (p1 ++ p2) tok amt (h1 ++ h2) t2 a2.
+Proof.
+  induction p1; intros p2 tok amt h1 h2 t1 a1 t2 a2 H1 H2; inv H1; cbn; auto.
+  econstructor; eauto.
+Qed.
+
+Lemma follows_markets lk path tok amt hops tok' amt' :
+  follows lk path tok amt hops tok' amt' -> map hp_market hops = path.
+Proof. induction 1; cbn; congruence. Qed.
+
+(* do_swap: what one abstract swap step does *)
+Lemma do_swap_spec m tok amt outs tok' amt' sd outs' :
+  do_swap m tok amt outs = Ok (tok', amt', sd, outs') ->
+  mk_long m <> mk_short m /\ outs = amt' :: outs' /\ amt <> 0 /\
+  (sd = true /\ tok = mk_long m /\ tok' = mk_short m \/ sd = false /\ tok = mk_short m /\ tok' = mk_long m).
+Proof.
+  unfold do_swap, side, opposite. intro H.
+  destruct (tok =? mk_long m) eqn:El.
+  - apply Z.eqb_eq in El.
+    destruct (tok =? mk_short m) eqn:Es; [discriminate|]. apply Z.eqb_neq in Es.
+    destruct (amt =? 0) eqn:Ea; [discriminate|]. apply Z.eqb_neq in Ea.
+    destruct outs; [discriminate|]. destruct (U64_MAX <? z); [discriminate|]. inv H.
+    split; [congruence|]. split; [auto|]. split; [auto|]. left; auto.
+  - destruct (tok =? mk_short m) eqn:Es; [|discriminate]. apply Z.eqb_eq in Es. apply Z.eqb_neq in El.
+    destruct (tok =? mk_long m) eqn:El'; [apply Z.eqb_eq in El'; congruence|].
+    destruct (amt =? 0) eqn:Ea; [discriminate|]. apply Z.eqb_neq in Ea.
+    destruct outs; [discriminate|]. destruct (U64_MAX <? z); [discriminate|]. inv H.
+    split; [congruence|]. split; [auto|]. split; [auto|]. right; auto.
+Qed.
+
+(* a pure (no-op) market can never perform a step *)
+Lemma do_swap_pure m tok amt outs : is_pure m = true -> exists e, do_swap m tok amt outs = Err e.
+Proof.
+  unfold is_pure, do_swap, side, opposite. intro H. apply Z.eqb_eq in H. rewrite <- H.
+  destruct (tok =? mk_long m) eqn:E; [|eauto]. rewrite E. eauto.
+Qed.
+
+(* ------------------------------------------------------------------ state-level facts *)
+Definition wtotal (s : st) (T : Z) : Z := bal_of (s_cur s) T + total (s_ms s) T.
+
+(* token lookup of a swap state: the current market or one of the swap markets *)
+Definition lk (s : st) (id : Z) : option (Z * Z) :=
+  if id =? mk_id (s_cur s) then Some (mk_long (s_cur s), mk_short (s_cur s)) else toks_of (s_ms s) id.
+
+(* [ext s s' hops]: s' extends s by the hops (oldest first), consuming one abstract output per hop, and no
+   market changed identity or tokens *)
+Definition ext (s s' : st) (hops : list hop) : Prop :=
+  s_hops s' = rev hops ++ s_hops s /\
+  s_outs s = map hp_out hops ++ s_outs s' /\
+  mk_id (s_cur s') = mk_id (s_cur s) /\
+  (forall id, lk s' id = lk s id) /\
+  (forall id, find (s_ms s') id = None <-> find (s_ms s) id = None) /\
+  (forall T, wtotal s' T = wtotal s T).
+
+Lemma ext_refl s : ext s s [].
+Proof. unfold ext. cbn. repeat split; auto. Qed.
+
+Lemma ext_trans a b c h1 h2 : ext a b h1 -> ext b c h2 -> ext a c (h1 ++ h2).
+Proof.
+  unfold ext. intros (H1 & O1 & I1 & L1 & F1 & T1) (H2 & O2 & I2 & L2 & F2 & T2).
+  split; [rewrite H2, H1, rev_app_distr, app_assoc; auto|].
+  split; [rewrite O1, O2, map_app, app_assoc; auto|].
+  split; [congruence|]. split; [intro id; rewrite L2; auto|].
+  split; [intro id; rewrite F2; auto|]. intro T. rewrite T2. auto.
+Qed.
+
+Lemma follows_ext_lk lk1 lk2 path tok amt hops tok' amt' :
+  (forall mt, In mt path -> lk1 mt = lk2 mt) ->
+  follows lk1 path tok amt hops tok' amt' -> follows lk2 path tok amt hops tok' amt'.
+Proof.
+  intros He H. induction H; [constructor|].
+  econstructor; eauto.
+  - rewrite <- He; [eauto|left; auto].
+  - apply IHfollows. intros x Hx. apply He. right. auto.
+Qed.
+
+Lemma find_none_upd ms m m' id :
+  find ms (mk_id m') = Some m -> (find (upd ms m') id = None <-> find ms id = None).
+Proof.
+  intro Hf. destruct (Z.eq_dec id (mk_id m')) as [->|Hne].
+  - rewrite (find_upd_same _ _ _ Hf), Hf. split; discriminate.
+  - rewrite (find_upd_other _ _ _ Hne). tauto.
+Qed.
+
+(* swap_with_current *)
+Lemma swap_current_spec s tok amt s' tok' amt' :
+  swap_current s tok amt = Ok (s', tok', amt') ->
+  exists h, ext s s' [h] /\ follows (lk s) [mk_id (s_cur s)] tok amt [h] tok' amt'.
+Proof.
+  unfold swap_current, rbind. intro H.
+  destruct (do_swap (s_cur s) tok amt (s_outs s)) as [[[[t a] sd] o]|] eqn:E; [|discriminate].
+  inv H. apply do_swap_spec in E as (Hp & Ho & Ha & Hs).
+  exists (mkHop (mk_id (s_cur s)) sd amt amt'). split.
+  - unfold ext. cbn. repeat split; auto.
+  - apply F_cons with (tl := mk_long (s_cur s)) (ts := mk_short (s_cur s)); cbn; auto.
+    + unfold lk. rewrite Z.eqb_refl. reflexivity.
+    + destruct Hs as [(-> & -> & ->)|(-> & -> & ->)]; auto.
+    + destruct Hs as [(-> & -> & ->)|(-> & -> & ->)]; cbn; constructor.
+Qed.
+
+(* moving an amount between the current market and a swap market keeps every total *)
+Lemma move_cur_to_ms_spec s id tok amt s' :
+  find (s_ms s) (mk_id (s_cur s)) = None ->
+  move_cur_to_ms s id tok amt = Ok s' -> ext s s' [] /\ find (s_ms s) id <> None.
+Proof.
+  unfold move_cur_to_ms, rbind. intros Hc H.
+  destruct (find (s_ms s) id) as [m|] eqn:Ef; [|discriminate].
+  destruct (rec_out (s_cur s) tok amt) as [c'|] eqn:Eo; [|discriminate].
+  destruct (rec_in m tok amt) as [m'|] eqn:Ei; [|discriminate]. inv H.
+  apply rec_out_spec in Eo as ((Ci & Cl & Cs) & _ & Co).
+  apply rec_in_spec in Ei as ((Mi & Ml & Ms) & _ & Mo).
+  pose proof (find_id _ _ _ Ef) as Hid. rewrite <- Mi in Hid. rewrite <- Hid in Ef.
+  split; [|congruence]. unfold ext. cbn. split; [auto|]. split; [auto|]. split; [auto|]. split; [|split].
+  - intro i. unfold lk. cbn. rewrite Ci, Cl, Cs. destruct (i =? mk_id (s_cur s)); auto.
+    eapply toks_upd; eauto.
+  - intro i. eapply find_none_upd; eauto.
+  - intro T. unfold wtotal. cbn. rewrite (total_upd _ _ _ _ Ef), Co, Mo. lia.
+Qed.
+
+Lemma move_ms_to_cur_spec s id tok amt s' :
+  move_ms_to_cur s id tok amt = Ok s' -> ext s s' [] /\ find (s_ms s) id <> None.
+Proof.
+  unfold move_ms_to_cur, rbind. intros H.
+  destruct (find (s_ms s) id) as [m|] eqn:Ef; [|discriminate].
+  destruct (rec_out m tok amt) as [m'|] eqn:Eo; [|discriminate].
+  destruct (rec_in (s_cur s) tok amt) as [c'|] eqn:Ei; [|discriminate]. inv H.
+  apply rec_out_spec in Eo as ((Mi & Ml & Ms) & _ & Mo).
+  apply rec_in_spec in Ei as ((Ci & Cl & Cs) & _ & Co).
+  pose proof (find_id _ _ _ Ef) as Hid. rewrite <- Mi in Hid. rewrite <- Hid in Ef.
+  split; [|congruence]. unfold ext. cbn. split; [auto|]. split; [auto|]. split; [auto|]. split; [|split].
+  - intro i. unfold lk. cbn. rewrite Ci, Cl, Cs. destruct (i =? mk_id (s_cur s)); auto.
+    eapply toks_upd; eauto.
+  - intro i. eapply find_none_upd; eauto.
+  - intro T. unfold wtotal. cbn. rewrite (total_upd _ _ _ _ Ef), Co, Mo. lia.
+Qed.
+
+(* swap_along_the_path *)
+Lemma along_spec : forall path s tok amt first s' tok' amt',
+  along s path tok amt first = Ok (s', tok', amt') ->
+  exists hops,
+    s_hops s' = rev hops ++ s_hops s /\ s_outs s = map hp_out hops ++ s_outs s' /\
+    s_cur s' = s_cur s /\
+    (forall id, toks_of (s_ms s') id = toks_of (s_ms s) id) /\
+    (forall id, find (s_ms s') id = None <-> find (s_ms s) id = None) /\
+    follows (toks_of (s_ms s)) path tok amt hops tok' amt' /\
+    (forall T, total (s_ms s') T = total (s_ms s) T +
+               (if first then 0 else match path with [] => 0 | _ => if T =? tok then amt else 0 end)).
+Proof.
+  induction path as [|mt rest IH]; intros s tok amt first s' tok' amt' H; cbn [along] in H.
+  - inv H. exists []. cbn. repeat split; auto; try constructor. intro T. destruct first; lia.
+  - destruct (find (s_ms s) mt) as [m|] eqn:Ef; [|discriminate]. unfold rbind in H.
+    destruct (if first then Ok m else rec_in m tok amt) as [m1|] eqn:E1; [|discriminate].
+    destruct (do_swap m1 tok amt (s_outs s)) as [[[[t a] sd] o]|] eqn:Es; [|discriminate].
+    destruct (match rest with [] => Ok m1 | _ :: _ => rec_out m1 t a end) as [m2|] eqn:E2; [|discriminate].
+    apply IH in H as (hs & Hh & Ho & Hc & Hl & Hn & Hf & Ht). cbn [s_hops s_outs s_cur s_ms] in *.
+    pose proof (find_id _ _ _ Ef) as Hid.
+    assert (S1 : same_tokens m m1 /\ forall T, bal_of m1 T = bal_of m T + (if first then 0 else if T =? tok then amt else 0)).
+    { destruct first.
+      - inv E1. split; [unfold same_tokens; auto|]. intro T; lia.
+      - apply rec_in_spec in E1 as (S & _ & B). split; auto. }
+    destruct S1 as ((I1 & L1 & R1) & B1).
+    apply do_swap_spec in Es as (Hp & Hout & Ha & Hs).
+    assert (S2 : same_tokens m1 m2 /\ forall T, bal_of m2 T = bal_of m1 T - (match rest with [] => 0 | _ => if T =? t then a else 0 end)).
+    { destruct rest.
+      - inv E2. split; [unfold same_tokens; auto|]. intro T; lia.
+      - apply rec_out_spec in E2 as (S & _ & B). split; auto. }
+    destruct S2 as ((I2 & L2 & R2) & B2).
+    assert (Ef' : find (s_ms s) (mk_id m2) = Some m) by (rewrite I2, I1, Hid; auto).
+    exists (mkHop mt sd amt a :: hs).
+    split; [rewrite Hh; cbn; rewrite <- app_assoc; reflexivity|].
+    split; [rewrite Hout; cbn; rewrite Ho; reflexivity|].
+    split; [auto|].
+    split; [intro id; rewrite Hl; eapply toks_upd; eauto; congruence|].
+    split; [intro id; rewrite Hn; eapply find_none_upd; eauto|].
+    split.
+    + apply F_cons with (tl := mk_long m) (ts := mk_short m); cbn; auto.
+      * unfold toks_of. rewrite Ef. reflexivity.
+      * congruence.
+      * rewrite L1, R1 in Hs. destruct Hs as [(-> & -> & _)|(-> & -> & _)]; auto.
+      * assert (Et : t = (if sd then mk_short m else mk_long m)).
+        { rewrite L1, R1 in Hs. destruct Hs as [(-> & _ & ->)|(-> & _ & ->)]; reflexivity. }
+        rewrite <- Et. eapply follows_ext_lk; [|exact Hf].
+        intros x _. eapply toks_upd; eauto; congruence.
+    + intro T. rewrite Ht, (total_upd _ _ _ _ Ef'), B2, B1.
+      destruct rest; destruct first; lia.
+Qed.
+
+Lemma follows_weaken lk1 lk2 path tok amt hops tok' amt' :
+  (forall mt v, lk1 mt = Some v -> lk2 mt = Some v) ->
+  follows lk1 path tok amt hops tok' amt' -> follows lk2 path tok amt hops tok' amt'.
+Proof.
+  intros He H. induction H; [constructor|]. econstructor; eauto.
+Qed.
+
+Lemma follows_lk_ext s s' hops path tok amt hs tok' amt' :
+  ext s s' hops -> follows (lk s') path tok amt hs tok' amt' -> follows (lk s) path tok amt hs tok' amt'.
+Proof.
+  intros (_ & _ & _ & L & _) H. eapply follows_ext_lk; [|exact H]. intros mt _. apply L.
+Qed.
+
+Lemma ext_cur_none s s' hops :
+  ext s s' hops -> find (s_ms s) (mk_id (s_cur s)) = None -> find (s_ms s') (mk_id (s_cur s')) = None.
+Proof. intros (_ & _ & I & _ & F & _) H. rewrite I. apply F. auto. Qed.
+
+Lemma along_ext s path tok amt s' tok' amt' :
+  find (s_ms s) (mk_id (s_cur s)) = None ->
+  along s path tok amt true = Ok (s', tok', amt') ->
+  exists hops, ext s s' hops /\ follows (lk s) path tok amt hops tok' amt'.
+Proof.
+  intros Hc H. apply along_spec in H as (hops & Hh & Ho & Hcur & Hl & Hn & Hf & Ht).
+  exists hops. split.
+  - unfold ext. split; [auto|]. split; [auto|]. split; [congruence|]. split; [|split; [auto|]].
+    + intro id. unfold lk. rewrite Hcur, Hl. auto.
+    + intro T. unfold wtotal. rewrite Hcur, Ht. lia.
+  - eapply follows_weaken; [|exact Hf]. intros mt v Hv. unfold lk.
+    destruct (mt =? mk_id (s_cur s)) eqn:E; auto.
+    apply Z.eqb_eq in E. subst mt. unfold toks_of in Hv. rewrite Hc in Hv. discriminate.
+Qed.
+
+Lemma stage_first_spec is_into s path tok amt s4 tok4 amt4 path4 :
+  find (s_ms s) (mk_id (s_cur s)) = None ->
+  stage_first is_into s path tok amt = Ok (s4, tok4, amt4, path4) ->
+  exists pre hops, path = pre ++ path4 /\ ext s s4 hops /\ follows (lk s) pre tok amt hops tok4 amt4.
+Proof.
+  intros Hc H. unfold stage_first in H. destruct path as [|first rest].
+  - inv H. exists [], []. split; auto. split; [apply ext_refl|constructor].
+  - unfold rbind in H.
+    destruct (if negb is_into && negb (first =? mk_id (s_cur s)) then move_cur_to_ms s first tok amt else Ok s)
+      as [s1|] eqn:E1; [|discriminate].
+    assert (X1 : ext s s1 []).
+    { destruct (negb is_into && negb (first =? mk_id (s_cur s))).
+      - apply move_cur_to_ms_spec in E1 as [X _]; auto.
+      - inv E1. apply ext_refl. }
+    destruct (first =? mk_id (s_cur s)) eqn:Ef.
+    + apply Z.eqb_eq in Ef.
+      destruct (swap_current s1 tok amt) as [[[s2 tok2] amt2]|] eqn:E2; [|discriminate].
+      apply swap_current_spec in E2 as (h & X2 & F2).
+      assert (Hid : mk_id (s_cur s1) = mk_id (s_cur s)) by (destruct X1 as (_ & _ & I & _); auto).
+      rewrite Hid, <- Ef in F2.
+      assert (F2' : follows (lk s) [first] tok amt [h] tok2 amt2) by (eapply follows_lk_ext; eauto).
+      destruct rest as [|nxt rest'].
+      * injection H as <- <- <- <-. exists [first], [h]. split; auto. split; auto.
+        change [h] with ([] ++ [h]). eapply ext_trans; eauto.
+      * destruct (move_cur_to_ms s2 nxt tok2 amt2) as [s3|] eqn:E3; [|discriminate].
+        injection H as <- <- <- <-.
+        assert (Hc2 : find (s_ms s2) (mk_id (s_cur s2)) = None).
+        { eapply ext_cur_none; [exact X2|]. eapply ext_cur_none; eauto. }
+        apply move_cur_to_ms_spec in E3 as [X3 _]; auto.
+        exists [first], [h]. split; auto. split; auto.
+        change [h] with (([] ++ [h]) ++ []). eapply ext_trans; [eapply ext_trans; eauto|auto].
+    + injection H as <- <- <- <-. exists [], []. split; auto. split; auto. constructor.
+Qed.
+
+Lemma last_of_app l x : last_of (l ++ [x]) = x.
+Proof. unfold last_of. apply last_last. Qed.
+
+Lemma stage_rest_spec is_into s4 path4 tok4 amt4 s' tok' amt' :
+  find (s_ms s4) (mk_id (s_cur s4)) = None ->
+  stage_rest is_into s4 path4 tok4 amt4 = Ok (s', tok', amt') ->
+  exists hops, ext s4 s' hops /\ follows (lk s4) path4 tok4 amt4 hops tok' amt'.
+Proof.
+  intros Hc H. unfold stage_rest in H. destruct path4 as [|p0 prest] eqn:Ep.
+  - inv H. exists []. split; [apply ext_refl|constructor].
+  - rewrite <- Ep in *. assert (Hne : path4 <> []) by (rewrite Ep; discriminate). clear Ep.
+    unfold rbind in H.
+    set (cur := mk_id (s_cur s4)) in *.
+    destruct (last_of path4 =? cur) eqn:Esw.
+    + (* the path ends in the current market *)
+      apply Z.eqb_eq in Esw.
+      destruct (along s4 (removelast path4) tok4 amt4 true) as [[[s5 tok5] amt5]|] eqn:Ea; [|discriminate].
+      apply along_ext in Ea as (h5 & X5 & F5); auto.
+      destruct (match removelast path4 with [] => Ok s5 | _ :: _ => move_ms_to_cur s5 (last_of (removelast path4)) tok5 amt5 end)
+        as [s6|] eqn:E6; [|discriminate].
+      assert (X6 : ext s5 s6 []).
+      { destruct (removelast path4); [inv E6; apply ext_refl|].
+        apply move_ms_to_cur_spec in E6 as [X _]; auto. }
+      destruct (swap_current s6 tok5 amt5) as [[[s7 tok7] amt7]|] eqn:E7; [|discriminate].
+      apply swap_current_spec in E7 as (h & X7 & F7).
+      assert (Hid : mk_id (s_cur s6) = cur).
+      { destruct X6 as (_ & _ & I6 & _). destruct X5 as (_ & _ & I5 & _). unfold cur. congruence. }
+      rewrite Hid in F7.
+      assert (X57 : ext s4 s7 (h5 ++ [h])).
+      { replace (h5 ++ [h]) with ((h5 ++ []) ++ [h]) by (rewrite app_nil_r; auto).
+        eapply ext_trans; [eapply ext_trans; eauto|auto]. }
+      assert (F7' : follows (lk s4) [cur] tok5 amt5 [h] tok7 amt7).
+      { eapply (follows_lk_ext s4 s6 (h5 ++ [])); [eapply ext_trans; eauto|exact F7]. }
+      assert (Hp : path4 = removelast path4 ++ [cur]).
+      { rewrite <- Esw. unfold last_of. apply app_removelast_last. auto. }
+      assert (Ffull : follows (lk s4) path4 tok4 amt4 (h5 ++ [h]) tok7 amt7).
+      { rewrite Hp. eapply follows_app; eauto. }
+      cbn [negb] in H. rewrite Bool.andb_false_r in H. inv H.
+      exists (h5 ++ [h]). auto.
+    + destruct (along s4 path4 tok4 amt4 true) as [[[s5 tok5] amt5]|] eqn:Ea; [|discriminate].
+      apply along_ext in Ea as (h5 & X5 & F5); auto.
+      cbn [negb] in H. rewrite Bool.andb_true_r in H. destruct is_into.
+      * destruct (move_ms_to_cur s5 (last_of path4) tok5 amt5) as [s8|] eqn:E8; [|discriminate]. inv H.
+        apply move_ms_to_cur_spec in E8 as [X8 _].
+        exists h5. split; auto. replace h5 with (h5 ++ []) by apply app_nil_r. eapply ext_trans; eauto.
+      * inv H. exists h5. auto.
+Qed.
+
+(* revertible_swap_for_one_side *)
+Theorem one_side_spec is_into s path expected tok amt s' out :
+  one_side is_into s path expected tok amt = Ok (s', out) ->
+  find (s_ms s) (mk_id (s_cur s)) = None /\
+  exists hops, ext s s' hops /\ follows (lk s) path tok amt hops expected out.
+Proof.
+  unfold one_side. intro H.
+  destruct (find (s_ms s) (mk_id (s_cur s))) eqn:Hc; [discriminate|]. split; auto.
+  unfold rbind in H.
+  destruct (stage_first is_into s path tok amt) as [[[[s4 tok4] amt4] path4]|] eqn:E1; [|discriminate].
+  destruct (stage_rest is_into s4 path4 tok4 amt4) as [[[s7 tok7] amt7]|] eqn:E2; [|discriminate].
+  destruct (tok7 =? expected) eqn:Ee; [|discriminate]. apply Z.eqb_eq in Ee. inv H.
+  apply stage_first_spec in E1 as (pre & h1 & Hp & X1 & F1); auto.
+  apply stage_rest_spec in E2 as (h2 & X2 & F2); [|eapply ext_cur_none; eauto].
+  exists (h1 ++ h2). split; [eapply ext_trans; eauto|].
+  rewrite Hp. eapply follows_app; [exact F1|]. eapply follows_lk_ext; eauto.
+Qed.
+
+(* a successful step never goes through a pure (no-op) market, and never repeats ... the markets on the
+   path all have two distinct tokens *)
+Lemma follows_no_pure lk0 path tok amt hops tok' amt' :
+  follows lk0 path tok amt hops tok' amt' ->
+  Forall (fun mt => exists l s, lk0 mt = Some (l, s) /\ l <> s) path.
+Proof. induction 1; constructor; eauto. Qed.
+
+(* SwapMarkets::revertible_swap *)
+Theorem revertible_swap_spec is_into s p1 p2 exp1 exp2 tin1 tin2 a1 a2 s' o1 o2 :
+  revertible_swap is_into s p1 p2 exp1 exp2 tin1 tin2 a1 a2 = Ok (s', o1, o2) ->
+  NoDup p1 /\ NoDup p2 /\
+  exists h1 h2,
+    ext s s' (h1 ++ h2) /\
+    match tin1 with
+    | Some t => if a1 =? 0 then h1 = [] /\ o1 = 0 else follows (lk s) p1 t a1 h1 exp1 o1
+    | None => h1 = [] /\ o1 = 0
+    end /\
+    match tin2 with
+    | Some t => if a2 =? 0 then h2 = [] /\ o2 = 0 else follows (lk s) p2 t a2 h2 exp2 o2
+    | None => h2 = [] /\ o2 = 0
+    end.
+Proof.
+  unfold revertible_swap. intro H.
+  destruct (nodup_b p1) eqn:N1; cbn [negb] in H; [|discriminate]. apply nodup_b_NoDup in N1.
+  unfold rbind in H.
+  destruct (match tin1 with Some t => if a1 =? 0 then Ok (s, 0) else one_side is_into s p1 exp1 t a1 | None => Ok (s, 0) end)
+    as [[s1 x1]|] eqn:E1; [|discriminate].
+  destruct (nodup_b p2) eqn:N2; cbn [negb] in H; [|discriminate]. apply nodup_b_NoDup in N2.
+  destruct (match tin2 with Some t => if a2 =? 0 then Ok (s1, 0) else one_side is_into s1 p2 exp2 t a2 | None => Ok (s1, 0) end)
+    as [[s2 x2]|] eqn:E2; [|discriminate].
+  destruct (final_checks is_into s2 p1 p2 exp1 exp2 x1 x2); [|discriminate]. inv H.
+  split; auto. split; auto.
+  assert (A1 : exists h1, ext s s1 h1 /\
+            match tin1 with
+            | Some t => if a1 =? 0 then h1 = [] /\ o1 = 0 else follows (lk s) p1 t a1 h1 exp1 o1
+            | None => h1 = [] /\ o1 = 0
+            end).
+  { destruct tin1 as [t|].
+    - destruct (a1 =? 0).
+      + inv E1. exists []. split; [apply ext_refl|auto].
+      + apply one_side_spec in E1 as (_ & h & X & F). eauto.
+    - inv E1. exists []. split; [apply ext_refl|auto]. }
+  destruct A1 as (h1 & X1 & F1).
+  assert (A2 : exists h2, ext s1 s' h2 /\
+            match tin2 with
+            | Some t => if a2 =? 0 then h2 = [] /\ o2 = 0 else follows (lk s1) p2 t a2 h2 exp2 o2
+            | None => h2 = [] /\ o2 = 0
+            end).
+  { destruct tin2 as [t|].
+    - destruct (a2 =? 0).
+      + inv E2. exists []. split; [apply ext_refl|auto].
+      + apply one_side_spec in E2 as (_ & h & X & F). eauto.
+    - inv E2. exists []. split; [apply ext_refl|auto]. }
+  destruct A2 as (h2 & X2 & F2).
+  exists h1, h2. split; [eapply ext_trans; eauto|]. split; auto.
+  destruct tin2 as [t|]; auto. destruct (a2 =? 0); auto. eapply follows_lk_ext; eauto.
+Qed.
+
+(* ------------------------------------------------------------------ creation time *)
+Fixpoint chain (path : list pacct) (tok : Z) : option Z :=
+  match path with
+  | [] => Some tok
+  | p :: r =>
+      if p_long p =? p_short p then None
+      else if tok =? p_long p then chain r (p_short p)
+      else if tok =? p_short p then chain r (p_long p)
+      else None
+  end.
+
+Lemma validate_path_spec : forall path seen cur mts fin toks,
+  validate_path seen path cur = Ok (mts, fin, toks) ->
+  NoDup (map p_addr path) /\ (forall p, In p path -> ~ In (p_addr p) seen) /\
+  Forall (fun p => p_store_ok p = true /\ p_enabled p = true /\ p_long p <> p_short p) path /\
+  mts = map p_mt path /\ chain path cur = Some fin /\
+  (forall p, In p path -> In (p_index p) toks /\ In (p_long p) toks /\ In (p_short p) toks).
+Proof.
+  induction path as [|p rest IH]; intros seen cur mts fin toks H; cbn [validate_path] in H.
+  - inv H. cbn. repeat split; auto; try constructor; intros p [].
+  - destruct (existsb (Z.eqb (p_addr p)) seen) eqn:Es; [discriminate|].
+    destruct (p_store_ok p) eqn:Eo; cbn [negb] in H; [|discriminate].
+    destruct (p_enabled p) eqn:Ee; cbn [negb] in H; [|discriminate].
+    destruct (p_long p =? p_short p) eqn:Ep; [discriminate|]. apply Z.eqb_neq in Ep.
+    unfold rbind in H.
+    destruct (if cur =? p_long p then Ok (p_short p) else if cur =? p_short p then Ok (p_long p) else Err 1)
+      as [nxt|] eqn:En; [|discriminate].
+    destruct (validate_path (p_addr p :: seen) rest nxt) as [[[m f] t]|] eqn:Er; [|discriminate]. inv H.
+    apply IH in Er as (N & S & F & M & C & T).
+    assert (Hns : ~ In (p_addr p) seen).
+    { intro Hin. apply existsb_eqb_In in Hin. congruence. }
+    split; [|split; [|split; [|split; [|split]]]].
+    + cbn. constructor; auto. intro Hin. apply in_map_iff in Hin as (q & Hq & Hin).
+      apply (S q Hin). left. auto.
+    + intros q [<-|Hq]; auto. intro Hin. apply (S q Hq). right. auto.
+    + constructor; auto.
+    + cbn. congruence.
+    + cbn [chain]. destruct (p_long p =? p_short p) eqn:E; [apply Z.eqb_eq in E; congruence|].
+      destruct (cur =? p_long p); [inv En; auto|]. destruct (cur =? p_short p); [inv En; auto|discriminate].
+    + intros q [<-|Hq].
+      * cbn. tauto.
+      * destruct (T q Hq) as (A & B & C'). cbn. tauto.
+Qed.
+
+Lemma dedup_In l : forall x, In x (dedup l) <-> In x l.
+Proof.
+  induction l; intro x; cbn; [tauto|].
+  destruct (existsb (Z.eqb a) l) eqn:E.
+  - rewrite IHl. split; auto. intros [<-|H]; auto. apply existsb_eqb_In. auto.
+  - cbn. rewrite IHl. tauto.
+Qed.
+
+Lemma dedup_NoDup l : NoDup (dedup l).
+Proof.
+  induction l; cbn; [constructor|]. destruct (existsb (Z.eqb a) l) eqn:E; auto.
+  constructor; auto. rewrite dedup_In. intro H. apply existsb_eqb_In in H. congruence.
+Qed.
+
+Theorem validate_and_init_spec cur_tokens plen slen paths tin1 tin2 tout1 tout2 m1 m2 toks :
+  validate_and_init cur_tokens plen slen paths tin1 tin2 tout1 tout2 = Ok (m1, m2, toks) ->
+  let q1 := firstn (Z.to_nat plen) paths in
+  let q2 := firstn (Z.to_nat slen) (skipn (Z.to_nat plen) paths) in
+  plen + slen <= MAX_STEPS /\ plen + slen <= Z.of_nat (length paths) /\
+  NoDup (map p_addr q1) /\ NoDup (map p_addr q2) /\
+  Forall (fun p => p_store_ok p = true /\ p_enabled p = true /\ p_long p <> p_short p) (q1 ++ q2) /\
+  m1 = map p_mt q1 /\ m2 = map p_mt q2 /\
+  chain q1 tin1 = Some tout1 /\ chain q2 tin2 = Some tout2 /\
+  NoDup toks /\ Z.of_nat (length toks) <= MAX_TOKENS /\
+  (forall t, In t cur_tokens -> In t toks) /\
+  (forall p, In p (q1 ++ q2) -> In (p_index p) toks /\ In (p_long p) toks /\ In (p_short p) toks).
+Proof.
+  unfold validate_and_init. intro H.
+  destruct (MAX_STEPS <? plen + slen) eqn:E1; [discriminate|]. apply Z.ltb_ge in E1.
+  destruct (Z.of_nat (length paths) <? plen + slen) eqn:E2; [discriminate|]. apply Z.ltb_ge in E2.
+  unfold rbind in H.
+  destruct (validate_path [] (firstn (Z.to_nat plen) paths) tin1) as [[[a f1] t1]|] eqn:V1; [|discriminate].
+  destruct (f1 =? tout1) eqn:F1; cbn [negb] in H; [|discriminate]. apply Z.eqb_eq in F1. subst f1.
+  destruct (validate_path [] (firstn (Z.to_nat slen) (skipn (Z.to_nat plen) paths)) tin2) as [[[b f2] t2]|] eqn:V2;
+    [|discriminate].
+  destruct (f2 =? tout2) eqn:F2; cbn [negb] in H; [|discriminate]. apply Z.eqb_eq in F2. subst f2.
+  destruct (MAX_TOKENS <? Z.of_nat (length (dedup (cur_tokens ++ t1 ++ t2)))) eqn:E3; [discriminate|].
+  apply Z.ltb_ge in E3. inv H.
+  apply validate_path_spec in V1 as (N1 & _ & A1 & M1 & C1 & T1).
+  apply validate_path_spec in V2 as (N2 & _ & A2 & M2 & C2 & T2).
+  cbn zeta. repeat split; auto.
+  - apply Forall_app. auto.
+  - apply dedup_NoDup.
+  - intros t Ht. apply dedup_In. apply in_or_app. auto.
+  - apply in_app_or in H as [H|H]; apply dedup_In; apply in_or_app; right; apply in_or_app;
+      [left; apply (T1 p H)|right; apply (T2 p H)].
+  - apply in_app_or in H as [H|H]; apply dedup_In; apply in_or_app; right; apply in_or_app;
+      [left; apply (T1 p H)|right; apply (T2 p H)].
+  - apply in_app_or in H as [H|H]; apply dedup_In; apply in_or_app; right; apply in_or_app;
+      [left; apply (T1 p H)|right; apply (T2 p H)].
+Qed.
+
+(* amounts chain from hop to hop *)
+Fixpoint chain_amounts (a : Z) (hs : list hop) (a' : Z) : Prop :=
+  match hs with [] => a' = a | h :: r => hp_in h = a /\ chain_amounts (hp_out h) r a' end.
+
+Lemma follows_chain_amounts lk0 path tok amt hops tok' amt' :
+  follows lk0 path tok amt hops tok' amt' -> chain_amounts amt hops amt'.
+Proof. induction 1; cbn; auto. Qed.
